@@ -49,6 +49,24 @@ pub fn payload(uid: u64, size: usize) -> Vec<u8> {
     v
 }
 
+/// request addressed to another (older) harness server instance?
+fn foreign(rqctx: &RequestContext<C>, uid: u64) -> Option<Response<Body>> {
+    let ctx = rqctx.context();
+    match hdr_u64(rqctx, "x-vmon-instance") {
+        Some(i) if i != ctx.instance => {
+            ctx.log.push("H_FOREIGN", uid, i as i64, "");
+            Some(
+                Response::builder()
+                    .status(421)
+                    .header("x-vmon-instance", ctx.instance.to_string())
+                    .body(Body::from("request meant for another harness server instance"))
+                    .unwrap(),
+            )
+        }
+        _ => None,
+    }
+}
+
 /// H_DROP n: 1 = handler future dropped after it completed, 0 = dropped before
 /// completion (cancelled), 2 = dropped while unwinding from a panic
 struct Guard {
@@ -79,6 +97,9 @@ async fn handler_impl(
     let size = hdr_u64(&rqctx, "x-vmon-size").unwrap_or(64) as usize;
     let k = hdr_u64(&rqctx, "x-vmon-k").unwrap_or(0);
     let step_us = hdr_u64(&rqctx, "x-vmon-step-us").unwrap_or(500);
+    if let Some(r) = foreign(&rqctx, uid) {
+        return Ok(r);
+    }
     ctx.log.push("H_ENTER", uid, ctx.instance as i64, op);
     let mut g = Guard { log: ctx.log.clone(), uid, done: false };
     match op {
@@ -166,6 +187,9 @@ async fn h_stream(
     let ctx = rqctx.context().clone();
     let uid = hdr_u64(&rqctx, "x-vmon-uid").unwrap_or(0);
     let size = hdr_u64(&rqctx, "x-vmon-size").unwrap_or(64) as usize;
+    if let Some(r) = foreign(&rqctx, uid) {
+        return Ok(r);
+    }
     ctx.log.push("H_ENTER", uid, ctx.instance as i64, "stream");
     let mut g = Guard { log: ctx.log.clone(), uid, done: false };
     ctx.gates.wait(uid).await;
@@ -220,9 +244,14 @@ pub fn api() -> ApiDescription<C> {
 
 // ------------------------------------------------------------------ requests
 
-pub fn mk_req(path: &str, uid: u64, size: usize, k: u64, step_us: u64) -> Req {
+/// `inst`: the server instance the client means to talk to.  Parallel scenarios
+/// recycle ephemeral ports, so a client that connects after its own server has
+/// closed may reach a *newer* harness server on the same port; handlers refuse
+/// such requests (421) instead of treating them as their own.
+pub fn mk_req(inst: u64, path: &str, uid: u64, size: usize, k: u64, step_us: u64) -> Req {
     Req::new("GET", path)
         .uid(uid)
+        .header("x-vmon-instance", &inst.to_string())
         .header("x-vmon-size", &size.to_string())
         .header("x-vmon-k", &k.to_string())
         .header("x-vmon-step-us", &step_us.to_string())
